@@ -64,9 +64,9 @@ def _parse_tlc(out, res):
     m = re.search(r"Invariant (\S+) is violated", out)
     if m:
         res.violated = m.group(1)
-    m2 = re.search(r"Action property (\S+) is violated|Temporal properties were violated|property (\S+) is violated", out)
+    m2 = re.search(r"Action property (\S+) is violated|Temporal properties were violated|property (\S+) is violated|Temporal property (\S+) was violated", out)
     if m2 and not res.violated:
-        res.violated = m2.group(1) or m2.group(2) or "temporal"
+        res.violated = m2.group(1) or m2.group(2) or m2.group(3) or "temporal"
     mc = re.search(r"The invariant of (\S+) is equal to FALSE", out)
     if mc and not res.violated:
         res.violated = mc.group(1)
